@@ -16,7 +16,9 @@ ge = pick(lambda c: c["kind"] == "generic" and c["R"] == 5 and c["M"] == 2 and c
 me = pick(lambda c: c["kind"] == "metric" and c["op"] == "correlation" and c["shape"] == [3, 4] and c["axis"] == 1)
 le = pick(lambda c: c["kind"] == "lev" and c["rows"] == 5 and c["flavour"] == "lowrank")
 lx = pick(lambda c: c["kind"] == "levexact" and len(c["idxs"]) == 3 and c["pad"] == 2)
-good = [ex, ge, me, le, lx]
+mg = pick(lambda c: c["kind"] == "exact" and c["R"] == 3 and c["M"] == 2 and c["b"] == 0 and c["s"] == 6 and c["p"] == [2, 3, 1])
+mg["id"] = "good-magnified"
+good = [ex, ge, me, le, lx, mg]
 evs, want = list(good), {}
 def swp(l): l[0], l[1] = l[1], l[0]
 def mut(base, name, clause, f):
@@ -31,6 +33,12 @@ mut(ex, "exact-factors", "PermuteFactors", lambda e: e["permute"][1]["factors"][
 mut(ex, "exact-pperm", "PermuteOptimal", lambda e: swp(e["permute"][2]["perm"]))
 mut(ex, "exact-domain", "InDomain", lambda e: e["cfg"]["A"][0][0].__setitem__(0, 7))
 mut(ex, "exact-dropped-form", "CongForms", lambda e: e["cong"].pop())
+mut(mg, "mag-raised", "CongRaised", lambda e: e["cong"][3].update(raised=True, val=2000000001, perm=[]))
+mut(mg, "mag-swap-perm", "CongOptimal", lambda e: e["cong"][2].__setitem__("perm", e["cong"][0]["perm"]))
+mut(mg, "mag-corr-swap", "CorrMax", lambda e: e["corr_swap"].__setitem__("max_score", e["corr_swap"]["max_score"] + 10))
+mut(mg, "mag-permute-raised", "PermuteRaised", lambda e: e["permute"][0].update(raised=True, perm=[]))
+mut(mg, "mag-eqf", "PermuteFactors", lambda e: e["permute"][0].__setitem__("eqf", False))
+mut(mg, "mag-eqw", "PermuteWeights", lambda e: e["permute"][2].__setitem__("eqw", False))
 mut(ge, "gen-val", "CongValueOfPerm", lambda e: e["cong"][0].__setitem__("val", e["cong"][0]["val"] + 60))
 mut(ge, "gen-corr", "CorrStacked", lambda e: e["corr"].__setitem__("stacked", e["corr"]["stacked"] + 10))
 mut(ge, "gen-corravg", "CorrAvg", lambda e: e["corr"].__setitem__("avg_score", e["corr"]["avg_score"] + 10))
